@@ -3,7 +3,7 @@
    point on integer-encoded arguments, [spec tag args] evaluates the
    independent specification (wildcard -9 where the spec has no opinion).
    Both are extracted to OCaml and also evaluated by vm_compute in cases_*.v. *)
-From GJ Require Import Base Kernel KernelSpec Series SeriesSpec Ring RingSpec Index IndexExec.
+From GJ Require Import Base Kernel KernelSpec Series SeriesSpec Ring RingSpec Index IndexExec PairSpec.
 
 Definition WILD : Z := -9.
 Definition BAD : list Z := [-1].
@@ -203,6 +203,189 @@ Definition spec_search (moved : bool) (l : list Z) : list Z :=
   | _ => BAD
   end.
 
+(* ---- C02/C03/C12: geometry-level pairs ----
+   tag 50: args = s valid shapeA shapeB ; shape = 0 x y | 1 minx miny maxx maxy | 2 n coords | 3 nrings rings
+   output = [A.Intersects(B); B.Intersects(A); A.Contains(B); B.Contains(A)]  (-2 = out of fuel) *)
+Definition take_shape (l : list Z) : option (shape * list Z) :=
+  match l with
+  | 0 :: x :: y :: r => Some (SPoint (x, y), r)
+  | 1 :: a :: b :: c :: d :: r => Some (SRect ((a, b), (c, d)), r)
+  | 2 :: n :: r => let '(ps, rest) := take_pts (Z.to_nat n) r in Some (SLine ps, rest)
+  | 3 :: nr :: r =>
+      let '(rs, rest) := take_rings (Z.to_nat nr) r in
+      match rs with
+      | e :: hs => Some (SPoly e hs, rest)
+      | [] => Some (SPoly [] [], rest)
+      end
+  | _ => None
+  end.
+
+Inductive gshape := GPoint (p : pt) | GRect (r : rect) | GLine (l : rng) | GPoly (p : poly).
+
+Definition g_of_shape (s : shape) : gshape :=
+  match s with
+  | SPoint p => GPoint p
+  | SRect r => GRect r
+  | SLine ps => GLine (RS (mk_line ps))
+  | SPoly e hs => GPoly (mk_poly (e :: hs))
+  end.
+
+Definition ob (b : bool) : option bool := Some b.
+
+(* the Geometry interface: receiver a, argument b (geometry/{point,rect,line,poly}.go) *)
+Definition g_intersects (a b : gshape) : bool :=
+  match a, b with
+  | GPoint p, GPoint o => pt_eqb p o
+  | GPoint p, GRect r => point_intersects_rect p r
+  | GPoint p, GLine l => point_intersects_line p l
+  | GPoint p, GPoly o => point_intersects_poly p o
+  | GRect r, GPoint p => rect_contains_point r p
+  | GRect r, GRect o => rect_intersects_rect r o
+  | GRect r, GLine l => rect_intersects_line r l
+  | GRect r, GPoly o => rect_intersects_poly r o
+  | GLine l, GPoint p => line_contains_point_r l p
+  | GLine l, GRect r => line_intersects_rect l r
+  | GLine l, GLine o => line_intersects_line l o
+  | GLine l, GPoly o => line_intersects_poly l o
+  | GPoly p, GPoint o => poly_contains_point p o
+  | GPoly p, GRect r => poly_intersects_rect p r
+  | GPoly p, GLine l => poly_intersects_line p l
+  | GPoly p, GPoly o => poly_intersects_poly p o
+  end.
+
+Definition g_contains (a b : gshape) : option bool :=
+  match a, b with
+  | GPoint p, GPoint o => ob (pt_eqb p o)
+  | GPoint p, GRect r => ob (point_contains_rect p r)
+  | GPoint p, GLine l => ob (point_contains_line p l)
+  | GPoint p, GPoly o => ob (point_contains_poly p o)
+  | GRect r, GPoint p => ob (rect_contains_point r p)
+  | GRect r, GRect o => ob (rect_contains_rect r o)
+  | GRect r, GLine l => ob (rect_contains_line r l)
+  | GRect r, GPoly o => ob (rect_contains_poly r o)
+  | GLine l, GPoint p => ob (line_contains_point_r l p)
+  | GLine l, GRect r => line_contains_rect l r
+  | GLine l, GLine o => line_contains_line l o
+  | GLine l, GPoly o => line_contains_poly l o
+  | GPoly p, GPoint o => ob (poly_contains_point p o)
+  | GPoly p, GRect r => ob (poly_contains_rect p r)
+  | GPoly p, GLine l => ob (poly_contains_line p l)
+  | GPoly p, GPoly o => ob (poly_contains_poly p o)
+  end.
+
+Definition ob2z (o : option bool) : Z := match o with Some b => b2z b | None => -2 end.
+
+Definition run_pair (l : list Z) : list Z :=
+  match l with
+  | _ :: _ :: r =>
+      match take_shape r with
+      | Some (sa, r1) =>
+          match take_shape r1 with
+          | Some (sb, []) =>
+              let a := g_of_shape sa in let b := g_of_shape sb in
+              [b2z (g_intersects a b); b2z (g_intersects b a); ob2z (g_contains a b); ob2z (g_contains b a)]
+          | _ => BAD
+          end
+      | None => BAD
+      end
+  | _ => BAD
+  end.
+
+(* which: 0 = intersects answers only (C02), 1 = contains answers only (C03) *)
+Definition spec_pair (which : Z) (l : list Z) : list Z :=
+  match l with
+  | _ :: flags :: r =>
+      if negb (Z.odd flags) then ANY else
+      match take_shape r with
+      | Some (sa, r1) =>
+          match take_shape r1 with
+          | Some (sb, []) =>
+              if which =? 0 then let m := b2z (meets_x sa sb) in [m; m; WILD; WILD]
+              else [WILD; WILD; b2z (covers_x sa sb); b2z (covers_x sb sa)]
+          | _ => BAD
+          end
+      | None => BAD
+      end
+  | _ => BAD
+  end.
+
+(* ---- C12: symmetries and re-encodings ----
+   tag 52: args = s flags t p1 p2 shapeA shapeB ; transformation t with parameters p1 p2:
+     1 translate both by (p1,p2)   2 scale both by 2^p1      3 x -> -x (both)   4 y -> -y (both)
+     5 transpose x<->y (both)      6 rotate start vertex of A's rings by p1     7 reverse A
+     8 toggle A's closing vertex   9 Move both by (p1,p2) (same as 1 on the model side)
+   output = [eq0; eq1; eq2; eq3] ++ base answers ++ transformed answers *)
+Definition map_shape (f : pt -> pt) (s : shape) : shape :=
+  match s with
+  | SPoint p => SPoint (f p)
+  | SRect r =>
+      let a := f (fst r) in let b := f (snd r) in
+      SRect ((Z.min (px a) (px b), Z.min (py a) (py b)), (Z.max (px a) (px b), Z.max (py a) (py b)))
+  | SLine ps => SLine (map f ps)
+  | SPoly e hs => SPoly (map f e) (map (map f) hs)
+  end.
+
+Definition rot_list {A} (k : nat) (l : list A) : list A :=
+  match l with [] => [] | _ => skipn (k mod length l) l ++ firstn (k mod length l) l end.
+
+(* rings are given closed (last = first): operate on the open vertex list *)
+Definition open_ring (r : list pt) : list pt :=
+  match r with
+  | [] => []
+  | p :: _ => if pt_eqb (last r pt0) p then removelast r else r
+  end.
+Definition close_ring (r : list pt) : list pt := match r with [] => [] | p :: _ => r ++ [p] end.
+Definition is_closed_ring (r : list pt) : bool :=
+  match r with [] => false | p :: _ => (2 <=? length r)%nat && pt_eqb (last r pt0) p end.
+
+Definition reencode_ring (t : Z) (k : nat) (r : list pt) : list pt :=
+  if t =? 6 then (if is_closed_ring r then close_ring (rot_list k (open_ring r)) else rot_list k r)
+  else if t =? 7 then rev r
+  else if t =? 8 then (if is_closed_ring r then open_ring r else close_ring r)
+  else r.
+
+Definition transform_a (t p1 p2 : Z) (s : shape) : shape :=
+  if (t =? 1) || (t =? 9) then map_shape (fun p => (px p + p1, py p + p2)) s
+  else if t =? 2 then map_shape (fun p => (px p * 2 ^ p1, py p * 2 ^ p1)) s
+  else if t =? 3 then map_shape (fun p => (- px p, py p)) s
+  else if t =? 4 then map_shape (fun p => (px p, - py p)) s
+  else if t =? 5 then map_shape (fun p => (py p, px p)) s
+  else match s with
+       | SLine ps => if t =? 7 then SLine (rev ps) else s
+       | SPoly e hs => SPoly (reencode_ring t (Z.to_nat p1) e) (map (reencode_ring t (Z.to_nat p1)) hs)
+       | _ => s
+       end.
+
+Definition transform_b (t p1 p2 : Z) (s : shape) : shape :=
+  if 6 <=? t then (if t =? 9 then transform_a t p1 p2 s else s) else transform_a t p1 p2 s.
+
+Definition pair_answers (sa sb : shape) : list Z :=
+  let a := g_of_shape sa in let b := g_of_shape sb in
+  [b2z (g_intersects a b); b2z (g_intersects b a); ob2z (g_contains a b); ob2z (g_contains b a)].
+
+Definition run_sym (l : list Z) : list Z :=
+  match l with
+  | _ :: _ :: t :: p1 :: p2 :: r =>
+      match take_shape r with
+      | Some (sa, r1) =>
+          match take_shape r1 with
+          | Some (sb, []) =>
+              let base := pair_answers sa sb in
+              let tr := pair_answers (transform_a t p1 p2 sa) (transform_b t p1 p2 sb) in
+              map (fun xy => b2z (fst xy =? snd xy)) (combine base tr) ++ base ++ tr
+          | _ => BAD
+          end
+      | None => BAD
+      end
+  | _ => BAD
+  end.
+
+Definition spec_sym (l : list Z) : list Z :=
+  match l with
+  | _ :: flags :: _ => if negb (Z.odd flags) then ANY else [1; 1; 1; 1] ++ repeat WILD 8
+  | _ => BAD
+  end.
+
 Definition run (tag : Z) (args : list Z) : list Z :=
   match tag, args with
   | 1, [_; ax; ay; bx; by_; x; y] =>
@@ -225,6 +408,9 @@ Definition run (tag : Z) (args : list Z) : list Z :=
   | 40, l => run_index_bytes l
   | 41, l => run_search false l
   | 42, l => run_search true l
+  | 50, l => run_pair l
+  | 53, l => run_pair l
+  | 52, l => run_sym l
   | _, _ => BAD
   end.
 
@@ -251,6 +437,9 @@ Definition spec (tag : Z) (args : list Z) : list Z :=
   | 40, l => ANY
   | 41, l => spec_search false l
   | 42, l => spec_search true l
+  | 50, l => spec_pair 0 l
+  | 53, l => spec_pair 1 l
+  | 52, l => spec_sym l
   | _, _ => BAD
   end.
 
